@@ -24,6 +24,8 @@ pub struct C12;
 #[derive(Clone, Debug)]
 pub struct Delivery {
     pub kind: String,
+    /// for structured deliveries: "json" | "yaml" | "junit"
+    pub fmt: String,
     pub argv: Vec<String>,
     pub stdin: Option<String>,
     pub dir_mode: String,
@@ -36,12 +38,13 @@ pub struct Delivery {
 
 impl Delivery {
     fn to_json(&self) -> Value {
-        json!({"kind": self.kind, "argv": self.argv, "stdin": self.stdin, "dir_mode": self.dir_mode, "dir_seed": self.dir_seed,
+        json!({"kind": self.kind, "fmt": self.fmt, "argv": self.argv, "stdin": self.stdin, "dir_mode": self.dir_mode, "dir_seed": self.dir_seed,
                "extra": files_to_json(&self.extra), "mtimes": self.mtimes})
     }
     fn from_json(v: &Value) -> Option<Delivery> {
         Some(Delivery {
             kind: v.get("kind")?.as_str()?.to_string(),
+            fmt: v.get("fmt").and_then(|s| s.as_str()).unwrap_or("json").to_string(),
             argv: v.get("argv")?.as_array()?.iter().filter_map(|s| s.as_str().map(String::from)).collect(),
             stdin: v.get("stdin").and_then(|s| s.as_str()).map(String::from),
             dir_mode: v.get("dir_mode")?.as_str()?.to_string(),
@@ -244,7 +247,8 @@ impl C12 {
         let nd = scn.data.len();
         for _ in 0..k {
             let structured = r.chance(1, 2);
-            let tail: Vec<String> = if structured { vec!["--structured".into(), "-o".into(), "json".into(), "-S".into(), "none".into()] } else { vec!["-o".into(), "json".into(), "-S".into(), "none".into()] };
+            let fmt: &str = if structured { *r.pick(&["json", "json", "yaml", "junit"]) } else { "json" };
+            let tail: Vec<String> = if structured { vec!["--structured".into(), "-o".into(), fmt.into(), "-S".into(), "none".into()] } else { vec!["-o".into(), "json".into(), "-S".into(), "none".into()] };
             let choice = r.below(10);
             if choice < 3 {
                 // explicit arguments in a permutation
@@ -272,7 +276,7 @@ impl C12 {
                     }
                 }
                 argv.extend(tail);
-                out.push(Delivery { kind: format!("args-{}", if structured { "structured" } else { "plain" }), argv, stdin: None, dir_mode: "asc".into(), dir_seed: 1, extra: vec![], mtimes: BTreeMap::new() });
+                out.push(Delivery { kind: format!("args-{}", if structured { "structured" } else { "plain" }), fmt: fmt.into(), argv, stdin: None, dir_mode: "asc".into(), dir_seed: 1, extra: vec![], mtimes: BTreeMap::new() });
             } else if choice < 7 {
                 // directory walks
                 let flag = *r.pick(&["", "-a", "-m", "-m"]);
@@ -296,6 +300,7 @@ impl C12 {
                 }
                 out.push(Delivery {
                     kind: format!("dirs{}-{}", flag, if structured { "structured" } else { "plain" }),
+                    fmt: fmt.into(),
                     argv,
                     stdin: None,
                     dir_mode: (*r.pick(&["shuffle", "shuffle", "desc", "asc"])).to_string(),
@@ -314,6 +319,7 @@ impl C12 {
                 argv.extend(tail);
                 out.push(Delivery {
                     kind: format!("payload-{}", if structured { "structured" } else { "plain" }),
+                    fmt: fmt.into(),
                     argv,
                     stdin: Some("@/dlv/payload.json".into()),
                     dir_mode: "asc".into(),
@@ -338,7 +344,7 @@ impl C12 {
                     target = "@/dlv/tests/a_tests.json".to_string();
                 }
                 let argv = vec!["cfn-guard".to_string(), "test".into(), "-r".into(), format!("@/{}", scn.rules[0].0), "-t".into(), target, "-o".into(), "json".into(), "-a".into()];
-                out.push(Delivery { kind: format!("test-{}", if split { "split" } else { "perm" }), argv, stdin: None, dir_mode: (*r.pick(&["shuffle", "asc"])).to_string(), dir_seed: r.next(), extra, mtimes: BTreeMap::new() });
+                out.push(Delivery { kind: format!("test-{}", if split { "split" } else { "perm" }), fmt: "json".into(), argv, stdin: None, dir_mode: (*r.pick(&["shuffle", "asc"])).to_string(), dir_seed: r.next(), extra, mtimes: BTreeMap::new() });
             }
         }
         out
@@ -500,11 +506,69 @@ impl C12 {
             return out;
         }
         let structured = d.kind.ends_with("structured");
-        if structured {
-            let arr = match serde_json::from_slice::<Value>(&s.stdout) {
-                Ok(Value::Array(a)) => a,
+        if structured && d.fmt == "junit" {
+            // <testsuite name=DATA> <testcase name=RULES status=pass|skip> | <testcase ..><failure..>
+            let text = String::from_utf8_lossy(&s.stdout).into_owned();
+            let payload_order: Option<Vec<usize>> = if d.kind.starts_with("payload") { Some(self.payload_data_order(scn, d)) } else { None };
+            let attr = |tag: &str, name: &str| -> Option<String> {
+                let p = tag.find(&format!("{name}=\""))?;
+                let rest = &tag[p + name.len() + 2..];
+                Some(rest[..rest.find('"')?].to_string())
+            };
+            let mut suite_idx = 0usize;
+            let mut cur_data: Option<usize> = None;
+            let mut seen = 0usize;
+            let mut case_in_suite = 0usize;
+            let mut rest = text.as_str();
+            while let Some(p) = rest.find('<') {
+                rest = &rest[p..];
+                let end = rest.find('>').unwrap_or(rest.len() - 1);
+                let tag = &rest[..=end];
+                if tag.starts_with("<testsuite ") {
+                    let name = attr(tag, "name").unwrap_or_default();
+                    cur_data = match &payload_order {
+                        Some(ord) => ord.get(suite_idx).copied(),
+                        None => scn.data.iter().position(|rel| name.ends_with(rel.as_str())),
+                    };
+                    suite_idx += 1;
+                    case_in_suite = 0;
+                } else if tag.starts_with("<testcase ") {
+                    let name = attr(tag, "name").unwrap_or_default();
+                    let status = match attr(tag, "status").as_deref() {
+                        Some("pass") => "PASS",
+                        Some("skip") => "SKIP",
+                        Some("error") => "ERROR",
+                        _ => "FAIL",
+                    };
+                    let ri = if d.kind.starts_with("payload") {
+                        // RULES_STDIN[k] is the k-th rules text of the payload
+                        self.payload_rules_order(scn, d).get(case_in_suite).copied()
+                    } else {
+                        scn.rules.iter().position(|(rel, _)| rel.rsplit('/').next() == Some(name.as_str()))
+                    };
+                    case_in_suite += 1;
+                    if let (Some(ri), Some(di)) = (ri, cur_data) {
+                        seen += 1;
+                        let want = refs.pair[&(ri, di)].0.get("status").and_then(|x| x.as_str()).unwrap_or("");
+                        if want != status {
+                            out.push(("junit-pair-status".into(), format!("JUnit marks ({}, {}) as {} but that pair alone is {}", scn.rules[ri].0, scn.data[di], status, want)));
+                        }
+                    } else {
+                        out.push(("attribution".into(), "a JUnit test case names no known rules / data file".into()));
+                    }
+                }
+                rest = &rest[end + 1..];
+            }
+            if seen != scn.rules.len() * scn.data.len() {
+                out.push(("report-count".into(), format!("{} JUnit test cases for {} pairs", seen, scn.rules.len() * scn.data.len())));
+            }
+            rep.count("judged.junit", 1);
+        } else if structured {
+            let parsed: Option<Value> = if d.fmt == "yaml" { serde_yaml::from_slice::<Value>(&s.stdout).ok() } else { serde_json::from_slice::<Value>(&s.stdout).ok() };
+            let arr = match parsed {
+                Some(Value::Array(a)) => a,
                 _ => {
-                    out.push(("unparsable".into(), "structured output is not a JSON array".into()));
+                    out.push(("unparsable".into(), "structured output is not an array of reports".into()));
                     return out;
                 }
             };
@@ -589,6 +653,22 @@ impl C12 {
             rep.count("judged.plain", 1);
         }
         out
+    }
+
+    fn payload_rules_order(&self, scn: &Scn12, d: &Delivery) -> Vec<usize> {
+        let mut ord = Vec::new();
+        if let Some(p) = d.extra.iter().find(|f| f.rel == "dlv/payload.json") {
+            if let Ok(v) = serde_json::from_slice::<Value>(&p.bytes) {
+                if let Some(a) = v.get("rules").and_then(|a| a.as_array()) {
+                    for t in a {
+                        let t = t.as_str().unwrap_or("");
+                        let idx = scn.rules.iter().position(|(rel, _)| scn.files.iter().any(|f| &f.rel == rel && f.bytes == t.as_bytes()));
+                        ord.push(idx.unwrap_or(usize::MAX));
+                    }
+                }
+            }
+        }
+        ord
     }
 
     /// the data order inside a payload delivery (recovered from the payload file itself)
@@ -713,7 +793,7 @@ impl Check for C12 {
         ]
     }
     fn required_reach(&self, tier: Tier) -> Vec<(&'static str, u64)> {
-        let mut v = vec![("judged.plain", 1), ("judged.structured", 1), ("judged.test", 1), ("reach.same_rule_different_status", 1)];
+        let mut v = vec![("judged.plain", 1), ("judged.structured", 1), ("judged.junit", 1), ("judged.test", 1), ("reach.same_rule_different_status", 1)];
         if tier == Tier::Thorough {
             v.push(("reach.shared_capture_name", 1));
         }
